@@ -52,6 +52,8 @@ def snap_asset(a):
 def snap_source(s, norm7=False):
     kind = type(s).__name__
     data = s.data
+    if isinstance(data, numpy.ndarray) and data.ndim == 1 and len(s.components):
+        data = data.reshape(-1, len(s.components))      # assigned in the unshaped form the constructor takes
     if kind == 'FloatSource':
         data = _norm7(data) if norm7 else _arr(data)
     else:
